@@ -185,6 +185,13 @@ def check_range_ends(case):
             for n in range(-25, 26):
                 x = table[n]
                 if not inside(x):
+                    # the n-th business day lies OUTSIDE the range: the calendar may refuse (it raises), but a date it does hand back must still be that day
+                    if not tod and 0 <= x < len(DTS):
+                        got = impl(cal.add, tt, n)
+                        if not isinstance(got, Exception) and got != DTS[x]:
+                            bad('add-wrong', 't=%s add(t, %d): the answer %s lies outside the range; the calendar did not refuse but returned %s' % (fmt(tt), n, fmt(DTS[x]), fmt(got)),
+                                op='add', path='loop' if abs(n) <= 1 else 'table', tod=tod, outside=True, sign=(n > 0) - (n < 0))
+                        out.cls('answer-outside-range:%s' % ('refused' if isinstance(got, Exception) else 'answered'))
                     continue
                 on_end = x in (r0, r1) or e0 in (r0, r1)
                 got = impl(cal.add, tt, n)
@@ -336,6 +343,11 @@ def check_config(case):
                 ok, got = impl(cal.dt_bump, t, '%db' % n)
                 if not ok or got != e:
                     bad('dt_bump-wrong', "%s dt_bump(t, '%db') expected %s observed %s" % (tl, n, fmt(e), fmt(got)), op='dt_bump', path=path, sign=sgn)
+                # the unit letter in upper case ('2B', '+2B', '-1B'): the same business-day bump of THIS calendar
+                for sp in (('%dB' % n, '%+dB' % n) if n else ('0B',)):          # ('+0b' / '-0b' are spellings of their own: roll forward / backward)
+                    ok, got = impl(cal.dt_bump, t, sp)
+                    if not ok or got != e:
+                        bad('dt_bump-wrong', "%s dt_bump(t, %r) expected %s observed %s" % (tl, sp, fmt(e), fmt(got)), op='dt_bump', path=path, sign=sgn, upper=True)
         # ---- an adjustment passed explicitly to add / bdays / dt_bump overrides the calendar's own (loop path and indexed path alike)
         for a in ADJS:
             if a == adj:
